@@ -135,6 +135,8 @@ type subRun struct {
 	closed   bool
 	want     []ExpEvent
 	held     map[string]proto.Message // what the subscriber holds per id (projected), for equivalence
+	// undetermined: the contract stopped fixing what this subscriber receives (see expect); its log is not compared.
+	undetermined bool
 }
 
 // Runner executes ops against the real resource and the model side by side.
@@ -151,6 +153,7 @@ type Runner struct {
 	OKWrites, FailedWrites int
 	OutcomeKey             []string
 	stopped                bool
+	prevValue              proto.Message // Value: the stored message before the write being processed
 }
 
 // NewRunner builds the resource, the model and opens the subscriptions (so their seeds are the initial contents).
@@ -335,6 +338,16 @@ func (r *Runner) expect(be BaseEvent) {
 			if h, ok := sr.held[key]; ok && pn != nil && proto.Equal(h, pn) {
 				continue
 			}
+			if _, ok := sr.held[key]; !ok && po != nil && pn != nil && proto.Equal(po, pn) {
+				// an updates-only subscriber holds nothing for this item yet: whether a write that leaves the (masked)
+				// value unchanged reaches it is not fixed by the contract
+				sr.undetermined = true
+			}
+			if r.Cfg.IsValue && len(sr.held) == 0 && sr.spec.UpdatesOnly && be.Old == nil {
+				if prev := r.prevValue; prev != nil && proto.Equal(lib.RefProject(prev, spec.ReadMask), pn) {
+					sr.undetermined = true
+				}
+			}
 		}
 		if pn == nil {
 			delete(sr.held, key)
@@ -403,6 +416,10 @@ func (r *Runner) Do(op Op) error {
 		return fmt.Errorf("%v panicked: %v", op, panicked)
 	}
 	var out Outcome
+	r.prevValue = nil
+	if e := r.Model.Items[ValueKey]; r.Cfg.IsValue && e != nil && e.Msg != nil {
+		r.prevValue = proto.Clone(e.Msg)
+	}
 	switch op.Kind {
 	case OpGet:
 		out = r.Model.Get(op.ID, op.ReadMask)
@@ -496,7 +513,7 @@ func (r *Runner) Do(op Op) error {
 	// record times and expected events
 	if out.Event != nil {
 		be := *out.Event
-		if op.WriteTick > 0 && op.Kind != OpDelete {
+		if op.WriteTick > 0 {
 			be.TickLo, be.TickHi, be.Exact = op.WriteTick, op.WriteTick, true
 		} else {
 			be.TickLo, be.TickHi = c0, c1
@@ -632,6 +649,9 @@ func (r *Runner) Finish() error {
 		}
 		if timedOut {
 			return fmt.Errorf("subscription %d %v: the sentinel write was not delivered within %v (an event was lost or the stream stalled); received %d events, expected %d", i, sr.spec, WaitBound, len(got), len(sr.want))
+		}
+		if sr.undetermined {
+			continue
 		}
 		if err := compareEvents(got, sr.want, sr.spec, r.Cfg.IsValue); err != nil {
 			return fmt.Errorf("subscription %d %v: %v", i, sr.spec, err)
